@@ -3,6 +3,7 @@ package props
 import (
 	"bytes"
 	"context"
+	"errors"
 	"fmt"
 	"sort"
 	"strings"
@@ -17,6 +18,7 @@ import (
 	"github.com/regclient/regclient/internal/verif/simos"
 	"github.com/regclient/regclient/internal/verif/simrt"
 	"github.com/regclient/regclient/types/descriptor"
+	"github.com/regclient/regclient/types/errs"
 )
 
 // C07: an OCI layout survives a crash at any point of any write.
@@ -52,7 +54,8 @@ func planC07(base *core.Result, tier string, budget int, rng func(int) int) []co
 	return all
 }
 
-var c07Ops = []string{"blob-put", "push-tagged", "push-untagged", "push-child-then-index", "push-with-subject", "tag-delete", "manifest-delete", "close-gc", "image-copy", "image-import"}
+var c07Ops = []string{"blob-put", "push-tagged", "push-untagged", "push-child-then-index", "push-with-subject", "tag-delete", "manifest-delete", "close-gc", "image-copy", "image-import",
+	"blob-delete", "image-copy-referrers", "concurrent-copies", "concurrent-push-and-delete"}
 
 func runC07(e *core.Env) {
 	ctx := context.Background()
@@ -98,7 +101,7 @@ func runC07(e *core.Env) {
 	preTags := oracle.TagSnapshot(dir)
 	// the operation under test
 	op := c07Ops[e.Choose("gen", len(c07Ops), "op")]
-	if !populated && (op == "tag-delete" || op == "manifest-delete" || op == "close-gc" || op == "push-with-subject") {
+	if !populated && (op == "tag-delete" || op == "manifest-delete" || op == "close-gc" || op == "push-with-subject" || op == "concurrent-push-and-delete") {
 		op = "push-tagged"
 	}
 	// (blob-typed index entries and schema1 / OCI artifact manifests are C09's business: export and
@@ -249,6 +252,101 @@ func runC07(e *core.Env) {
 			return c.ImageCopy(ctx, mustRef("src.test/proj/app:v1"), mustRef(base+":"+tgtTag))
 		}
 		intended = func() []string { return present(newImg.Root.Digest, tgtTag) }
+	case "blob-delete":
+		// a blob nothing refers to, stored earlier, removed through the scheme's blob delete
+		data := bytes.Repeat([]byte("c07-stray-"), 1+e.Choose("gen", 30, "n"))
+		dg := digest.FromBytes(data)
+		if _, err := rc.BlobPut(ctx, mustRef(base), descriptor.Descriptor{Digest: dg, Size: int64(len(data))}, bytes.NewReader(data)); err != nil {
+			e.Infra("pre blob put: %v", err)
+			return
+		}
+		run = func(rc *regclient.RegClient) error {
+			err := rc.BlobDelete(ctx, mustRef(base), descriptor.Descriptor{Digest: dg, Size: int64(len(data))})
+			if err != nil && errors.Is(err, errs.ErrNotFound) {
+				return nil // the repeat after a crash that had already removed it
+			}
+			return err
+		}
+		intended = func() []string {
+			if _, ok := st.Blob(dg.String()); ok {
+				return []string{"the blob is still stored"}
+			}
+			return nil
+		}
+	case "image-copy-referrers":
+		// an image with referrers (and their own referrers) and digest-tags copied with both options: the copy
+		// rewrites the index once per fallback tag and digest-tag before the requested tag
+		targets[tgtTag] = true
+		w = newWorld(e)
+		src := w.AddReg("src.test")
+		src.K.Referrers = e.Choose("gen", 2, "refapi") == 0
+		rich := g.Graph(gen.Opts{NoExternal: true})
+		rich.Install(src, "proj/app", "v1")
+		wo := oracle.WalkOpts{Referrers: true, DigestTags: true}
+		all, dtags, _ := oracle.Closure(oracle.RegStore{Reg: src, Repo: "proj/app"}, rich.Root.Digest, wo)
+		for _, n := range all {
+			if n.ReferrerOf != "" {
+				targets[regmodel.FallbackTag(n.ReferrerOf)] = true
+			}
+		}
+		for t := range dtags {
+			targets[t] = true
+		}
+		run = func(c *regclient.RegClient) error {
+			return c.ImageCopy(ctx, mustRef("src.test/proj/app:v1"), mustRef(base+":"+tgtTag), regclient.ImageWithReferrers(), regclient.ImageWithDigestTags())
+		}
+		intended = func() []string {
+			out := present(rich.Root.Digest, tgtTag)
+			out = append(out, oracle.CheckPresent(oracle.RegStore{Reg: src, Repo: "proj/app"}, st, all)...)
+			for t, d := range dtags {
+				if got, _ := st.Tag(t); got != d {
+					out = append(out, fmt.Sprintf("digest-tag %s resolves to %q, want %s", t, short(got), short(d)))
+				}
+			}
+			return out
+		}
+	case "concurrent-copies":
+		// two copies into the layout run side by side through one client: the process dies under both
+		targets[tgtTag] = true
+		targets["new2"] = true
+		w = newWorld(e)
+		src := w.AddReg("src.test")
+		src.K.Referrers = e.Choose("gen", 2, "refapi") == 0
+		newImg.Install(src, "proj/app", "v1")
+		second := g.Graph(gen.Opts{NoReferrers: true, NoDigestTags: true, NoExternal: true})
+		second.Install(src, "proj/app", "v2")
+		run = func(c *regclient.RegClient) error {
+			return inParallel(
+				func() error {
+					return c.ImageCopy(ctx, mustRef("src.test/proj/app:v1"), mustRef(base+":"+tgtTag))
+				},
+				func() error { return c.ImageCopy(ctx, mustRef("src.test/proj/app:v2"), mustRef(base+":new2")) })
+		}
+		intended = func() []string {
+			return append(present(newImg.Root.Digest, tgtTag), present(second.Root.Digest, "new2")...)
+		}
+	case "concurrent-push-and-delete":
+		// a push of a new tag while another task deletes tag b: both rewrite the index
+		targets[tgtTag] = true
+		targets["b"] = true
+		run = func(c *regclient.RegClient) error {
+			return inParallel(
+				func() error { return pushNode(ctx, c, base, newImg.Root, tgtTag, false) },
+				func() error {
+					err := c.TagDelete(ctx, mustRef(base+":b"))
+					if err != nil && errors.Is(err, errs.ErrNotFound) {
+						return nil
+					}
+					return err
+				})
+		}
+		intended = func() []string {
+			out := present(newImg.Root.Digest, tgtTag)
+			if _, ok := st.Tag("b"); ok {
+				out = append(out, "tag b still present")
+			}
+			return out
+		}
 	case "image-import":
 		targets[tgtTag] = true
 		// build the archive from a scratch layout with the seam quiet
@@ -373,8 +471,8 @@ func runC07(e *core.Env) {
 		if miss := intended(); len(miss) > 0 {
 			e.Violation("repeat", "repeat-does-not-recover@"+fpSite, "%s: repeating the operation (err=%v) does not reach the intended state: %s", where, rerr, strings.Join(miss, "; "))
 		}
-		// (a blob put alone never creates an index: nothing to demand of it in a directory that had none)
-		for _, p := range oracle.AuditLayout(dir, op == "blob-put" && !layoutExisted) {
+		// (a blob put or blob delete alone never creates an index: nothing to demand of it in a directory that had none)
+		for _, p := range oracle.AuditLayout(dir, (op == "blob-put" || op == "blob-delete") && !layoutExisted) {
 			e.Violation("repeat", "invalid-after-repeat@"+fpSite, "%s: after repeating the operation: %s", where, p)
 		}
 		for _, t := range tnames {
@@ -392,6 +490,32 @@ func runC07(e *core.Env) {
 	} else {
 		e.Probe("from-empty")
 	}
+}
+
+// inParallel runs the functions as tasks of the simulation and returns the first error.
+func inParallel(fns ...func() error) error {
+	errsOut := make([]error, len(fns))
+	left := len(fns)
+	doneCh := make(chan struct{})
+	for i, fn := range fns {
+		simrt.Go(func() {
+			defer func() {
+				left--
+				if left == 0 {
+					close(doneCh)
+				}
+			}()
+			errsOut[i] = fn()
+		})
+	}
+	<-doneCh
+	simrt.Yield("joined")
+	for _, err := range errsOut {
+		if err != nil {
+			return err
+		}
+	}
+	return nil
 }
 
 func baseName(p string) string {
